@@ -340,13 +340,29 @@ func checkC05(sc *Scenario, t *Truth) []Violation {
 						stopped = true
 					}
 				}
+				why := ""
 				if stopped {
+					// the one case that is clear-cut: the user stopped it (and nothing else was ever
+					// asked of it) before it became ready, so it never will
+					onlyStops := true
+					for _, call := range t.Calls {
+						if strings.Contains(call.Desc, dep) && !(call.Op == "stop" && call.Arg == dep) && call.Client != "main" {
+							switch call.Op {
+							case "start", "restart", "update", "reload", "scale", "stopmany":
+								onlyStops = false
+							}
+						}
+					}
+					if onlyStops && (c == "process_log_ready" || c == "process_healthy") && f.terminal && !f.everReady && (sd < 0 || f.finalExit < sd) {
+						unsat[p.Name] = fmt.Sprintf("%s (%s): %s was stopped on request before it ever became ready", dep, c, dep)
+						changed = true
+						break
+					}
 					continue
 				}
 				if !f.terminal && !depSkipped {
 					continue
 				}
-				why := ""
 				switch c {
 				case "process_completed_successfully":
 					if depSkipped || f.errored {
